@@ -16,6 +16,7 @@ import re
 from concurrent.futures import ThreadPoolExecutor
 
 from translator import C12_linalg as T_lin
+from translator import C12_field as T_fld
 from translator.pyexpr import TranslateError
 from vlib import common
 
@@ -309,6 +310,69 @@ class Gen:
         raise RuntimeError("generator could not produce a small enough case")
 
 
+def directed_cases():
+    """a fixed set of small cases run on every check, so each defect family / each translated
+    formula is exercised deterministically (non-symmetric data, Ne = nPg = dim collisions)"""
+    C = []
+
+    def fe(shape, data=None, k="fe"):
+        n = prod(shape)
+        return {"k": k, "shape": list(shape), "data": data or [(3 * i * i + 2 * i + 1) % 7 - 2 for i in range(n)]}
+
+    def pl(shape, data=None):
+        n = prod(shape)
+        return {"k": "plain", "shape": list(shape), "data": data or [(5 * i + 1) % 6 - 1 for i in range(n)]}
+
+    def sc(v):
+        return {"k": "scalar", "shape": [], "data": [v]}
+    # Field operators x side x other kind
+    for code in (0, 1, 2, 3):
+        pool = [2, 4, 1, -2]
+        for other in (sc(4), {"k": "plain", "shape": [3], "data": [2, 4, -1]}, fe([1, 2, 3], [1, 2, 4, -1, 2, -4])):
+            f = fe([1, 2, 3], [1, 2, 4, -2, 1, 4], k="field")
+            C.append({"op": "ufunc2", "code": code, "how": "operator", "args": [f, other]})
+            C.append({"op": "ufunc2", "code": code, "how": "operator", "args": [other, f]})
+    for other in (pl([3]), pl([3, 3]), fe([2, 2, 3]), fe([2, 2, 3, 3])):
+        f = fe([1, 2, 3], k="field")
+        C.append({"op": "matmul", "args": [f, other]})
+        C.append({"op": "matmul", "args": [other, f]})
+    # every accepted rank pair of @ / dot / ddot, collision sizes, both plain and field right operands,
+    # and plain LEFT operands for @
+    for r1 in (1, 2, 4):
+        for r2 in (1, 2, 4):
+            n = 2
+            for yk in ("fe", "plain"):
+                x = fe([n, n] + [n] * r1)
+                y = fe([n, n] + [n] * r2) if yk == "fe" else pl([n] * r2)
+                C.append({"op": "matmul", "args": [x, y]})
+                C.append({"op": "dot", "args": [x, y]})
+                if r1 >= 2 and r2 >= 2:
+                    C.append({"op": "ddot", "args": [x, y]})
+            C.append({"op": "matmul", "args": [pl([n] * r1), fe([n, n] + [n] * r2)]})
+    C.append({"op": "matmul", "args": [pl([3, 3]), fe([3, 3, 3])]})
+    C.append({"op": "matmul", "args": [pl([3, 3]), fe([2, 4, 3])]})
+    # reducers on every axis (positive and negative), method and function
+    for how in ("method", "np"):
+        for a in (0, 1, 2, 3, -1, -2, -3, -4):
+            C.append({"op": "reduce", "code": 0, "axis": [a], "how": how, "kw": True, "tuple": False, "args": [fe([2, 2, 2, 2])]})
+        C.append({"op": "reduce", "code": 0, "axis": [2, 3], "how": how, "kw": True, "tuple": True, "args": [fe([2, 2, 2, 2])]})
+        C.append({"op": "reduce", "code": 0, "axis": [1, 2], "how": how, "kw": True, "tuple": True, "args": [fe([2, 2, 2, 2])]})
+        C.append({"op": "reduce", "code": 2, "axis": None, "how": how, "kw": True, "tuple": False, "args": [fe([2, 2, 2])]})
+    # Det / Inv / Trace on non-symmetric integer matrices (det = +-1, +-2)
+    mats = {1: [2], 2: [2, 1, 3, 2], 3: [1, 2, 0, 0, 1, 3, 1, 0, 2]}
+    for n, m in mats.items():
+        for op in ("Det", "Inv", "Trace"):
+            C.append({"op": op, "args": [{"k": "plain", "shape": [n, n], "data": m}]})
+            C.append({"op": op, "args": [{"k": "fe", "shape": [n, n, n, n], "data": [x + (1 if (i // (n * n)) % 2 and i % (n * n) == 1 else 0) for i, x in enumerate(m * (n * n))]}]})
+    # wrap: results whose shape looks like a field but is not on the (Ne, nPg) axes
+    C.append({"op": "einsum", "labels": [[0, 1]], "out": [1, 0], "args": [fe([2, 2, 2, 2])]})
+    C.append({"op": "where", "args": [fe([2, 2], [0, 1, 1, 0]), fe([2, 2]), sc(0)]})
+    C.append({"op": "where", "args": [pl([3, 3, 3], [i % 2 for i in range(27)]), fe([1, 1, 3]), sc(0)]})
+    for i, c in enumerate(C):
+        c["coll"] = True
+    return C
+
+
 def result_size_guess(shapes, kinds):
     """upper bound of the broadcast result size under the FeArray alignment"""
     lead = [1, 1]
@@ -511,7 +575,13 @@ def real_field_spec(rng):
 # ---------------------------------------------------------------------------------------
 def correspondence(ctx, ncases, cap, per_file=400):
     gen = Gen(ctx.rng, cap)
-    cases = [gen.case(i) for i in range(ncases)]
+    cases = directed_cases()
+    ndirected = len(cases)
+    for i, c in enumerate(cases):
+        c["id"] = i
+    cases += [gen.case(ndirected + i) for i in range(ncases - ndirected)]
+    ncases = len(cases)
+    ctx.cov["corr_directed_cases"] = ndirected
     req = {"cases": cases, "real_fields": real_field_spec(ctx.rng)}
     script = os.path.join(common.VERIF, "corr", "C12_impl.py")
     rc, out, err = ctx.impl_python(script, input=json.dumps(req), timeout=900)
@@ -547,7 +617,9 @@ def correspondence(ctx, ncases, cap, per_file=400):
         for m in re.finditer(r"=\s*\((\d+),\s*(true|false)\)", txt):
             verdict[int(m.group(1))] = m.group(2) == "true"
     ctx.checker_cmds.append("coqc (vm_compute) build/C12/Cases_*.v")
-    bad = [c for c in cases if not verdict.get(c["id"], False)]
+    bad = [c for c in cases if not verdict.get(c["id"], False) or results[c["id"]].get("oracle_ok") is False]
+    ctx.cov["corr_cases_with_independent_loop_oracle"] = sum(1 for c in cases if "oracle_ok" in results[c["id"]])
+    ctx.cov["corr_model_agrees_but_oracle_disagrees"] = sum(1 for c in cases if verdict.get(c["id"], False) and results[c["id"]].get("oracle_ok") is False)
     dist = {}
     for c in cases:
         r = results[c["id"]]
@@ -649,23 +721,38 @@ def run(ctx):
         ctx.obligation("translate", False, str(ex))
         ctx.violation("translate", "translator rejected _linalg.py: %s" % ex, {"construct": str(ex)}, found_input=False)
         gen = None
-    proof_ok = False
+    failed = []
     if gen is not None:
         ctx.obligation("translate", True, json.dumps(info))
         ctx.cov["translated"] = info
         open(os.path.join(ctx.build, "Gen_Linalg.v"), "w").write(gen)
-        props = [f for f in ("C12_linalg.v", "C12_theorems.v") if os.path.exists(os.path.join(common.COQ, "props", "C12", f))]
-        ctx.copy_props(*["C12/" + f for f in props])
-        res = ctx.coq(["Gen_Linalg.v"] + props, timeout=900)
-        proof_ok = res.ok
-        if not res.ok:
-            ctx.log("proof obligations broke in %s" % res.failed_file)
+        ctx.copy_props("C12/C12_linalg.v", "C12/C12_theorems.v", "C12/C12_field.v")
+        r1 = ctx.coq(["Gen_Linalg.v", "C12_linalg.v"], timeout=900)
+        r2 = ctx.coq(["C12_theorems.v"], timeout=900)
+        failed += [r for r in (r1, r2) if not r.ok]
+        try:
+            genf, finfo = T_fld.generate(ctx.repo)
+            ctx.obligation("translate:_field.py", True, json.dumps(finfo))
+            ctx.cov["translated_field"] = finfo
+            open(os.path.join(ctx.build, "Gen_Field.v"), "w").write(genf)
+            r3 = ctx.coq(["Gen_Field.v", "C12_field.v"], timeout=300)
+            if not r3.ok:
+                failed.append(r3)
+        except (TranslateError, SyntaxError, OSError) as ex:
+            ctx.obligation("translate:_field.py", False, str(ex))
+            ctx.violation("translate:_field.py", "translator rejected _field.py: %s" % ex, {"construct": str(ex)}, found_input=False)
+        for r in failed:
+            ctx.log("proof obligations broke in %s" % r.failed_file)
+        ctx.sample({"theorem": "C12_elementwise_pointwise", "statement": "forall V vbin op a c Ne nPg s, shape a = Ne::nPg::s -> (np_bcast s (shape c) = Some u -> fe op plain and plain op fe are FeArrays of shape Ne::nPg::u with res[e,p,K] = op(a[e,p,K|s], c[K|t]) in the written order) /\\ (None -> ValueError)", "assumptions": "closed under the global context"})
     n, cap = (1500, 1200) if ctx.tier == "quick" else (8000, 2500)
     nviol0 = len(ctx.violations)
     if gen is None:
         # the case files need the generated closed forms; without them only report the translator failure
         return
     correspondence(ctx, n, cap)
-    if not proof_ok and len(ctx.violations) == nviol0:
-        ctx.violation("proof-broken:" + str(res.failed_file), "theorem file %s no longer checks against the regenerated Gen_Linalg.v and the correspondence found no failing input" % res.failed_file,
-                      {"obligation": res.failed_file, "log": res.log[-3000:]}, found_input=False)
+    if failed and len(ctx.violations) == nviol0:
+        # a proof broke but neither the model correspondence nor the independent oracles found
+        # a failing input: the property is no longer shown
+        for r in failed:
+            ctx.violation("proof-broken:" + str(r.failed_file), "theorem file %s no longer checks against the regenerated sources and no failing input was found" % r.failed_file,
+                          {"obligation": r.failed_file, "log": r.log[-3000:]}, found_input=False)
